@@ -24,7 +24,11 @@ open Draco Draco.CInt
 /-- `x` is a value of `int32_t` -/
 def I32 (x : Int) : Prop := -2^31 ≤ x ∧ x < 2^31
 
+/-- `x` is a value of `uint32_t` -/
+def U32 (x : Int) : Prop := 0 ≤ x ∧ x < 2^32
+
 instance (x : Int) : Decidable (I32 x) := by unfold I32; infer_instance
+instance (x : Int) : Decidable (U32 x) := by unfold U32; infer_instance
 
 /-! ### C operations in linear-arithmetic form -/
 
@@ -223,9 +227,6 @@ theorem ComputeRAnsPrecisionFromUniqueSymbolsBitLength_eq_model (n : Nat) (h1 : 
   dsimp only [ComputeRAnsPrecisionFromUniqueSymbolsBitLength, ransPrecisionBits]
   rw [ComputeRAnsUnclampedPrecision_eq_model n (by omega) (by omega)]
   c_eq
-
-/-- `x` is a value of `uint32_t` -/
-def U32 (x : Int) : Prop := 0 ≤ x ∧ x < 2^32
 
 theorem ConvertSymbolToSignedInt_eq_model (v : Int) (hv : U32 v) :
     ConvertSymbolToSignedInt v = ofSymbol v.toNat := by
